@@ -5,17 +5,23 @@ from vlib.runner import Batch
 
 ID = "C04"
 LEAN_PROPS = ["FcpptProofs.Props.C04"]
-HARNESS = {"src": "harness/c04.cpp"}
+HARNESS = {"src": "harness/c04.cpp", "repo_srcs": ["libs/core/src/type_name.cpp", "libs/core/src/type_name_from_index.cpp"]}
 TIE = ("hand-written model (FcpptModel/Model/C04.lean: every combinator with its has_value/has_success/holds_type test and "
        "get_unsafe, continuations in a state+fault monad) + differential correspondence against the real templates")
 RULE = ("one op = one call of one combinator on values over D={0,1,2} with continuations given as complete function tables; "
         "both sides print the result and the ordered log of continuation calls with their arguments. Exhaustive over all "
         "optionals/eithers/variants, all value categories (L non-const lvalue, C const lvalue, R rvalue), all unary function "
         "tables (27 D->D, 64 D->optional D, 216 D->either, 8 D->bool), all containers up to length 4; all 3^9 binary tables via "
-        "`all9` digests (every input and category, both tiers); 27- and 81-entry tables sampled. "
-        "weight(all9 line)=19683. Non-trivial = a continuation was called or the result is not the empty optional.")
+        "`all9` digests (every input and category, both tiers); 27- and 81-entry tables sampled. Systematic batches for what "
+        "single-operation batches cannot see: a different value category per argument, one object as both operands, "
+        "continuations returning references, continuations that throw (table entry X), self-assignment / self-move / "
+        "self-swap, containers of length 5..13, other container types. The whole public API of optional/, either/, variant/ "
+        "and monad/ is an operation (125 kinds); a generated line the model rejects or an operation kind no batch generates "
+        "is a violation. weight(all9 line)=19683. Non-trivial = a continuation was called or the result is not the empty optional.")
 ASSUMPTIONS = [
-    "fcppt::optional::object<T> = Option T; either::object<F,S> = two-constructor sum; variant::object<Ts...> = (index, value of that type); the valueless std::variant state is not reachable through the modelled operations",
+    "fcppt::optional::object<T> = Option T; either::object<F,S> = two-constructor sum; variant::object<Ts...> = (index, value of that type), or `none` for the valueless state, which is reached only through an assignment whose construction throws",
+    "references / pointers are names of objects (copy_value, deref, from_pointer, to_pointer, to_optional_ref, dynamic_cast_): the harness checks identity by address and by writing through them",
+    "the implicitly defined copy/move members and std::swap of the three classes are those of std::optional / std::variant (modelled as replacement of the whole value)",
     "continuations are deterministic functions of their arguments and their own state (state monad K); exceptions are faults that keep the state",
     "std::visit, std::holds_alternative, std::get_if, std::variant's == and < behave as specified by the C++ standard",
     "parametricity of the templates carries the finite-domain correspondence to all element types (informal, named in DESIGN.md)",
@@ -30,7 +36,7 @@ OPTOPT = ["N", "JN", "JJ0", "JJ1", "JJ2"]
 EITH = ["F0", "F1", "F2", "S0", "S1", "S2"]
 EE = ["F0", "F1", "F2"] + ["S" + e for e in EITH]
 VAR = [a + d for a in "ABC" for d in D]
-OUTCOMES = ["R0", "R1", "R2", "X0", "X1", "X2", "Y"]
+OUTCOMES = ["R0", "R1", "R2", "X0", "X1", "X2", "Z0", "Z1", "Z2", "Y"]
 
 
 def tables(vals, n=3):
@@ -58,8 +64,39 @@ def rtable(r, vals, n):
     return "".join(r.choice(vals) for _ in range(n))
 
 
+_REJECTED = []     # generated lines the model rejected (must stay empty: both sides answering `bad-op` would agree)
+_OP_MIX = {}       # operation kind -> number of generated lines
+
+
 def nontrivial(op, result):
+    t = op.split()
+    kind = t[1] if t[0] == "all9" else t[0]
+    _OP_MIX[kind] = _OP_MIX.get(kind, 0) + 1
+    if result == "bad-op":
+        _REJECTED.append(op)
     return not (result.endswith("| -") and result.startswith("N "))
+
+
+def driver_op_kinds():
+    """the operation kinds `handle1` of the Lean driver knows, read off its source"""
+    import os
+    import re
+    src = open(os.path.join(os.path.dirname(os.path.dirname(os.path.abspath(__file__))), "lean", "FcpptModel", "Drv", "C04.lean")).read()
+    return sorted(set(re.findall(r'^  \| \["([a-z0-9_.]+)"', src, flags=re.M)) - {"all9"})
+
+
+def extra_checks(binp, rng, tier, ev):
+    """not a model/implementation diff: every generated line must be accepted by the model, and every operation kind of
+    the driver must have been generated"""
+    out = []
+    if _REJECTED:
+        out.append({"kind": "broken-correspondence",
+                    "what": f"{len(_REJECTED)} generated operation line(s) are rejected (bad-op) by the model, e.g. {_REJECTED[:3]}"})
+    missing = [k for k in driver_op_kinds() if k not in _OP_MIX]
+    if _OP_MIX and missing:
+        out.append({"kind": "broken-correspondence", "what": f"operation kinds of the driver that no batch generates: {missing}"})
+    ev.setdefault("coverage", {})["op_mix"] = dict(sorted(_OP_MIX.items()))
+    return out
 
 
 def weight(op):
@@ -207,6 +244,300 @@ def batches(rng, tier):
     yield Batch("nary-sampled-tables", ops,
                 note="apply/2 combine maybe_multi/2 either-apply/2 variant-apply/1 and the ternary apply/3 maybe_multi/3 either-apply/3: "
                      "every input tuple and value category, sampled function tables")
+    yield from blind_spot_batches(rng, tier)
+    yield from api_batches(rng, tier)
+
+
+def with_x(vals, n=3):
+    """all tables over vals + X (= the continuation throws there) that contain at least one X"""
+    return [t for t in tables(list(vals) + ["X"], n) if "X" in t]
+
+
+CATS2_MIXED = ["LC", "LR", "CL", "CR", "RL", "RC"]
+CATS3 = ["LLL", "CCC", "RRR", "RLL", "LRL", "LLR", "RRL", "RLR", "LRR"]
+CATS3_MIXED = CATS3[3:]
+LC = ["L", "C"]
+
+
+def blind_spot_batches(rng, tier):
+    """Systematic batches for what the per-operation batches above cannot see (see notes/C04.md, "Blind spots")."""
+    thorough = tier == "thorough"
+    r = rng.fork("blind")
+
+    # ---- a different value category per argument
+    ops = []
+    k = 4 if thorough else 2
+    for c, a, b in prod(CATS2_MIXED, OPT, OPT):
+        for _ in range(k):
+            ops.append(f"o.apply2 {c} {a} {b} {rtable(r, D, 9)}")
+            ops.append(f"o.combine {c} {a} {b} {rtable(r, D, 9)}")
+            ops.append(f"o.mm2 {c} {a} {b} {r.choice(D)} {rtable(r, D, 9)}")
+    for c, a, b in prod(CATS2_MIXED, EITH, EITH):
+        for _ in range(k):
+            ops.append(f"e.apply2 {c} {a} {b} {rtable(r, D, 9)}")
+    for c, a, b in prod(CATS2_MIXED, VAR, VAR):
+        ops.append(f"v.apply2 {c} {a} {b} {rtable(r, D, 81)}")
+    for c, a, b, d in prod(CATS3_MIXED, OPT, OPT, OPT):
+        ops.append(f"o.apply3 {c} {a} {b} {d} {rtable(r, D, 27)}")
+        ops.append(f"o.mm3 {c} {a} {b} {d} {r.choice(D)} {rtable(r, D, 27)}")
+    for c, a, b, d in prod(CATS3_MIXED, EITH, EITH, EITH):
+        ops.append(f"e.apply3 {c} {a} {b} {d} {rtable(r, D, 27)}")
+    for a, b, d in prod(VAR, VAR, VAR):
+        for c in (CATS3 if thorough else [r.choice(CATS3)]):
+            ops.append(f"v.apply3 {c} {a} {b} {d} {rtable(r, D, 27)}")
+    if thorough:
+        for c in ["LR", "RL"]:
+            ops += [f"all9 o.apply2 {c} {a} {b} *" for a, b in prod(OPT, OPT)]
+            ops += [f"all9 o.combine {c} {a} {b} *" for a, b in prod(OPT, OPT)]
+            ops += [f"all9 e.apply2 {c} {a} {b} *" for a, b in prod(EITH, EITH)]
+    yield Batch("mixed-value-categories", ops,
+                note="apply/2,3 combine maybe_multi/2,3 either-apply/2,3 variant-apply/2,3 with a different value category per argument "
+                     "(all 6 mixed pairs, all 6 L/R mixtures of three) on every input tuple, sampled tables: an argument forwarded with "
+                     "another argument's category moves out of an lvalue (SRC-MODIFIED) or is seen as 9")
+
+    # ---- the same object as both operands
+    ops = []
+    for c, o in prod(LC, OPT):
+        ops.append(f"all9 o.combine.same {c} {o} *")
+        ops.append(f"all9 o.apply2.same {c} {o} *")
+        ops += [f"o.mm2.same {c} {o} {d} {rtable(r, D, 9)}" for d in list(D) + ["X"]]
+        ops.append(f"o.alt.same {c} {o}")
+    ops += [f"o.cmp.same {o}" for o in OPT]
+    ops += [f"all9 e.apply2.same {c} {e} *" for c, e in prod(LC, EITH)]
+    ops += [f"v.cmp.same {v}" for v in VAR]
+    for v in VAR:
+        ops += [f"v.compare.same {v} {tb}" for tb in ["t" * 27, "f" * 27] + [rtable(r, "tf", 27) for _ in range(4)]]
+    yield Batch("same-object-twice", ops, exhaustive=True,
+                note="combine / apply / maybe_multi / alternative / either-apply / == != < / compare with one lvalue object as both "
+                     "operands (all 3^9 tables for combine, apply, either-apply)")
+
+    # ---- continuations returning a reference
+    ops = [f"o.maybe_ref {c} {o} {d}" for c, o, d in prod(LC, OPT, D)]
+    ops += [f"e.match_ref {c} {e}" for c, e in prod(LC, EITH)]
+    ops += [f"v.match_ref {c} {v}" for c, v in prod(LC, VAR)]
+    ops += [f"v.apply_ref {c} {v}" for c, v in prod(LC, VAR)]
+    ops += [f"o.to_exc_ref {c} {o}" for c, o in prod(LC, OPT)]
+    ops += [f"e.to_exc_ref {c} {e}" for c, e in prod(LC, EITH)]
+    yield Batch("reference-results", ops, exhaustive=True,
+                note="maybe / either-match / variant-match / variant-apply with continuations that return a reference to the payload "
+                     "of their argument: the result must be the object inside the source (`in:`), not a temporary (`other:` / ASan)")
+
+    # ---- continuations that write through their argument
+    ops = [f"o.map.mut {o} {f}" for o, f in prod(OPT, T_DD + with_x(D)[:8])]
+    ops += [f"o.bind.mut {o} {f}" for o, f in prod(OPT, T_DO)]
+    ops += [f"o.maybe.mut {o} {d} {f}" for o, d, f in prod(OPT, D, T_DD)]
+    ops += [f"o.maybe_void.mut {o}" for o in OPT]
+    for a, b in prod(OPT, OPT):
+        for _ in range(3):
+            ops.append(f"o.apply2.mut {a} {b} {rtable(r, D, 9)}")
+            ops.append(f"o.mm2.mut {a} {b} {r.choice(D)} {rtable(r, D, 9)}")
+    ops += [f"e.map.mut {e} {f}" for e, f in prod(EITH, T_DD)]
+    ops += [f"e.bind.mut {e} {f}" for e, f in prod(EITH, T_DE)]
+    ops += [f"e.mapf.mut {e} {f}" for e, f in prod(EITH, T_DD)]
+    ops += [f"e.match.mut {e} {f} {g}" for e, f, g in prod(EITH, T_DD, T_DD[::5])]
+    for a, b in prod(EITH, EITH):
+        for _ in range(3):
+            ops.append(f"e.apply2.mut {a} {b} {rtable(r, D, 9)}")
+    for v in VAR:
+        for f in T_DD:
+            g, h = r.choice(T_DD), r.choice(T_DD)
+            fs = {"A": (f, g, h), "B": (g, f, h), "C": (g, h, f)}[v[0]]
+            ops.append(f"v.match.mut {v} {fs[0]} {fs[1]} {fs[2]}")
+        ops += [f"v.apply1.mut {v} {rtable(r, D, 9)}" for _ in range(6)]
+    yield Batch("writing-continuations", ops,
+                note="map bind maybe maybe_void apply/2 maybe_multi/2, either map bind map_failure match apply/2, variant match apply on a "
+                     "non-const lvalue with continuations that take `T &` and write through it: the argument must be the object inside "
+                     "the source (move_type<Optional &> = T &), so the source shows the new value afterwards")
+
+    # ---- constructors
+    ops = [f"o.ctor {c} {v}" for c, v in prod(CATS, D)]
+    ops += [f"e.ctor {c} {k} {v}" for c, k, v in prod(CATS, "FS", D)]
+    ops += [f"v.ctor {c} {v}" for c, v in prod(CATS, VAR)]
+    for kind, vals in (("o", OPT), ("e", EITH), ("v", VAR)):
+        ops += [f"{kind}.asg {k} {a} {b}" for k, a, b in prod(["copy", "move", "swap"], vals, vals)]
+        ops += [f"{kind}.asg {k} {a} {b}" for k, a, b in prod(["cctor", "mctor"], vals[:1], vals)]
+        ops += [f"{kind}.asg {k} {a} {a}" for k, a in prod(["self", "selfmove", "selfswap"], vals)]
+    ops += [f"o.assign.own {o}" for o in OPT[1:]]
+    yield Batch("constructors", ops, exhaustive=True, note="object_impl.hpp constructors of optional / either / variant from an lvalue, const lvalue, rvalue (an lvalue "
+                     "argument is unchanged); the implicitly defined copy/move construction and assignment and std::swap on all pairs "
+                     "(the alternative changes), self-assignment, self-move, self-swap; assign(o, move(own content))")
+
+    # ---- containers longer than the exhaustive scope
+    def rlist(vals, lo=5, hi=14):
+        return "[" + "".join(r.choice(vals) for _ in range(r.range(lo, hi - 1))) + "]"
+
+    def mostly(vals, good, p=6):
+        # long runs of `good` elements so that the interesting element is far from the front
+        return "[" + "".join(r.choice(good) if r.below(p) else r.choice(vals) for _ in range(r.range(5, 13))) + "]"
+
+    ops = []
+    kk = 400 if thorough else 120
+    for _ in range(kk):
+        c = r.choice(CATS)
+        ops.append(f"o.cat {c} {rlist(OPT)}")
+        ops.append(f"o.seq {c} {mostly(OPT, OPT[1:])}")
+        ops.append(f"o.cat.ld {c} {rlist(OPT)}")
+        ops.append(f"o.seq.dl {c} {mostly(OPT, OPT[1:])}")
+        ops.append(f"e.seq R {mostly(EITH, EITH[3:])}")
+        ops.append(f"e.first {mostly(EITH + ['X'], EITH[:3])}")
+        ops.append(f"e.loop {mostly(EITH, EITH[3:])} {r.choice(['uuu', 'uuu', rtable(r, 'uX', 3)])}")
+        ops.append(f"e.seq_err {c} {rlist(D)} {rtable(r, ['u', 'u', 'u', '0', '1', '2', 'X'], 3)}")
+    yield Batch("long-containers", ops, note="cat sequence either-sequence first_success loop sequence_error on containers of length 5..13 "
+                                             "(past the exhaustive scope and past several vector reallocations), sampled")
+
+    # ---- other container types
+    lo = lists(OPT)
+    ops = [f"o.cat.ld {c} {l}" for c, l in prod(CATS, lo)] + [f"o.seq.dl {c} {l}" for c, l in prod(CATS, lo)]
+    yield Batch("other-containers", ops, exhaustive=True, note="cat: std::list -> std::deque, sequence: std::deque -> std::list; all vectors up to length 4 x 3 categories")
+
+    # ---- continuations that throw
+    xdd, xdo, xdb, xde = with_x(D), with_x(OPT), with_x("tf"), with_x(EITH)
+    ops = []
+    ops += [f"o.map {c} {o} {f}" for c, o, f in prod(CATS, OPT, xdd)]
+    ops += [f"o.bind {c} {o} {f}" for c, o, f in prod(CATS, OPT, xdo)]
+    ops += [f"o.mbind {c} {o} {f}" for c, o, f in prod(CATS, OPT, xdo)]
+    ops += [f"o.apply1 {c} {o} {f}" for c, o, f in prod(CATS, OPT, xdd)]
+    ops += [f"o.filter {c} {o} {p}" for c, o, p in prod(CATS, OPT, xdb)]
+    ops += [f"o.alt {c} {o} X" for c, o in prod(CATS, OPT)]
+    ops += [f"o.from {c} {o} X" for c, o in prod(CATS, OPT)]
+    dx = list(D) + ["X"]
+    tx = tables(dx)
+    ops += [f"o.maybe {c} {o} {d} {t}" for c, o, d, t in prod(CATS, OPT, dx, tx) if d == "X" or "X" in t]
+    ops += [f"o.mm1 {c} {o} {d} {t}" for c, o, d, t in prod(CATS, OPT, dx, tx) if d == "X" or "X" in t]
+    ops += ["o.make_if t X", "o.make_if f X"]
+    for c, a, b in prod(CATS + CATS2_MIXED, OPT, OPT):
+        ops.append(f"o.apply2 {c} {a} {b} {rtable(r, dx, 9)}")
+        ops.append(f"o.combine {c} {a} {b} {rtable(r, dx, 9)}")
+        ops.append(f"o.mm2 {c} {a} {b} {r.choice(dx)} {rtable(r, dx, 9)}")
+    for c, e, f in prod(CATS, EITH, xdd):
+        g = [rtable(r, dx, 3) for _ in range(2)]
+        ops += [f"e.match {c} {e} {f} {h}" if e[0] == "F" else f"e.match {c} {e} {h} {f}" for h in g]
+        ops.append(f"e.map {c} {e} {f}")
+        ops.append(f"e.apply1 {c} {e} {f}")
+        ops.append(f"e.mapf {c} {e} {f}")
+    ops += [f"e.bind {c} {e} {f}" for c, e, f in prod(CATS, EITH, xde)]
+    ops += [f"e.mbind {c} {e} {f}" for c, e, f in prod(CATS, EITH, xde)]
+    for c, a, b in prod(CATS + CATS2_MIXED, EITH, EITH):
+        ops.append(f"e.apply2 {c} {a} {b} {rtable(r, dx, 9)}")
+    ops += [f"e.from_opt {c} {o} X" for c, o in prod(CATS, OPT)]
+    ops += [f"e.try {o} {t}" for o, t in prod(OUTCOMES, xdd)]
+    ex = EITH + ["X"]
+    ops += [f"e.first {l}" for l in lists(ex, 4) if "X" in l]
+    ops += [f"e.loop {l} {b}" for l, b in prod(lists(EITH, 3), with_x("u"))]
+    for c, v, f in prod(CATS, VAR, xdd):
+        g, h = rtable(r, dx, 3), rtable(r, dx, 3)
+        fs = {"A": (f, g, h), "B": (g, f, h), "C": (g, h, f)}[v[0]]
+        ops.append(f"v.match {c} {v} {fs[0]} {fs[1]} {fs[2]}")
+        ops.append(f"v.apply1 {c} {v} {rtable(r, dx, 9)}")
+    for a, b in prod(VAR, VAR):
+        ops.append(f"v.compare {a} {b} {rtable(r, 'tfX', 27)}")
+    yield Batch("throwing-continuations", ops,
+                note="every operation with a continuation, with tables / thunks in which some entries throw: the exception leaves the "
+                     "combinator, the calls made up to then are the model's, and an lvalue source is unchanged afterwards; "
+                     "exhaustive for the unary operations (all tables over D+{throw} with a throwing entry), first_success on all "
+                     "lists <= 4 with throwing functions, loop with a throwing body")
+
+
+REFS = ["N", "J&0", "J&1", "J&2"]
+PTRS = ["P-", "P&0", "P&1", "P&2"]
+DYN_LISTS = ["1", "2", "12", "21", "32", "123", "231", "321"]
+
+
+def api_batches(rng, tier):
+    """The public optional / either / variant / monad API outside the anchor list."""
+    thorough = tier == "thorough"
+    r = rng.fork("api")
+    cells = tables(D)
+    dx = list(D) + ["X"]
+
+    ops = []
+    ops += [f"o.to_cont {c} {o}" for c, o in prod(CATS, OPT)]
+    ops += [f"o.copy_value {c} {o} {cs}" for c, o, cs in prod(LC, REFS, cells)]
+    ops += [f"o.deref {k} {o} {cs}" for k, o, cs in prod("pi", REFS, cells)]
+    ops += [f"o.deref_up {o}" for o in OPT]
+    ops += [f"o.mvm1 {c} {o}" for c, o in prod(CATS, OPT)]
+    ops += [f"o.mvm2 {c} {a} {b}" for c, a, b in prod(CATS + CATS2_MIXED, OPT, OPT)]
+    ops += [f"o.mvm3 {c} {a} {b} {d}" for c, a, b, d in prod(CATS3, OPT, OPT, OPT)]
+    ops += [f"o.assign {o} {v}" for o, v in prod(OPT, D)]
+    ops += [f"o.set {o} {v}" for o, v in prod(OPT[1:], D)]
+    ops += [f"o.from_ptr {p} {cs}" for p, cs in prod(PTRS, cells)]
+    ops += [f"o.to_ptr {o} {cs}" for o, cs in prod(REFS, cells)]
+    ops += [f"o.to_exc {c} {o}" for c, o in prod(CATS, OPT)]
+    ops += [f"o.make {c} {v}" for c, v in prod(CATS, D)]
+    ops += [f"o.out {o}" for o in OPT]
+    ops += ["o.nothing"]
+    yield Batch("api-optional", ops, exhaustive=True,
+                note="to_container copy_value deref (pointer, iterator, unique_ptr) maybe_void_multi/1,2,3 assign get_unsafe-write "
+                     "from_pointer to_pointer to_exception make operator<< nothing: all optionals / references into all 27 cell "
+                     "contents x value categories (mixed ones for maybe_void_multi)")
+
+    ops = []
+    ops += [f"e.cmp {a} {b}" for a, b in prod(EITH, EITH)]
+    ops += [f"e.cmp.same {a}" for a in EITH]
+    ops += [f"e.construct {b} {sv} {fv}" for b, sv, fv in prod("tf", dx, dx)]
+    ops += [f"e.err_from_opt {c} {o}" for c, o in prod(CATS, OPT)]
+    ops += [f"e.mk_fail {c} {v}" for c, v in prod(CATS, D)]
+    ops += [f"e.mk_succ {c} {v}" for c, v in prod(CATS, D)]
+    ops += [f"e.out {e}" for e in EITH]
+    ops += [f"e.to_exc {c} {e}" for c, e in prod(CATS, EITH)]
+    ops += [f"e.set {e} {v}" for e, v in prod(EITH, D)]
+    ftab = tables(["u"] + dx)
+    ops += [f"e.seq_err {c} {l} {f}" for c, l, f in prod(CATS, lists(D), ftab)]
+    yield Batch("api-either", ops, exhaustive=True,
+                note="== != (all 36 pairs, and an object with itself) construct error_from_optional make_failure make_success "
+                     "operator<< to_exception get_*_unsafe-write; sequence_error on all vectors over D up to length 4 x all 125 "
+                     "functions D -> {success, failure 0..2, throws} x 3 value categories")
+
+    ops = []
+    ops += [f"v.to_opt_ref {c} {j} {v} {nv}" for c, j, v, nv in prod(LC, D, VAR, D)]
+    ops += [f"v.get {v} {nv}" for v, nv in prod(VAR, D)]
+    ops += [f"v.out {v}" for v in VAR]
+    ops += [f"v.tinfo {v}" for v in VAR]
+    ops += [f"v.dyn L {l} {d}" for l, d in prod(DYN_LISTS, "0123")]
+    ops += [f"v.dyn C {l} {d}" for l, d in prod(["12", "21"], "0123")]
+    yield Batch("api-variant", ops, exhaustive=True,
+                note="to_optional_ref (written through for non-const) free get_unsafe (read, written) operator<< type_info "
+                     "current_type_name is_invalid; dynamic_cast_ with 8 type lists (all orders of a base and its derived class) "
+                     "x 4 dynamic types, const flavour")
+
+    v2 = ["A0", "A1", "A2", "T", "V"]
+    ops = [f"vv.assign {d} {s_} f" for d, s_ in prod(v2, v2)] + [f"vv.assign {d} T t" for d in v2]
+    ops += [f"vv.obs {v} {k}" for v, k in prod(v2, ["invalid", "index", "holds", "to_opt", "to_opt_ref", "apply", "match", "tinfo", "out"])]
+    ops += [f"vv.cmp {a} {b}" for a, b in prod(v2, v2)]
+    ops += [f"vv.compare {a} {b} {x}" for a, b, x in prod(v2, v2, "tf")]
+    yield Batch("valueless-variant", ops, exhaustive=True,
+                note="variant<A, thrower>: assignment whose copy construction throws leaves the target valueless (is_invalid); every "
+                     "observer / visitor / comparison on valid and valueless operands, recovery by assignment")
+
+    ops = []
+    cats = CATS if thorough else [r.choice(CATS)]
+    ops += [f"m.chain2.o {c} {o} {f} {g}" for c, o, f, g in prod(cats, OPT, T_DO, T_DO)]
+    if thorough:
+        ops += [f"m.chain2.e {c} {e} {f} {g}" for c, e, f, g in prod(CATS, EITH, T_DE, T_DE)]
+    else:
+        ops += [f"m.chain2.e {r.choice(CATS)} {r.choice(EITH)} {r.choice(T_DE)} {r.choice(T_DE)}" for _ in range(20000)]
+    ops += [f"m.chain0.o {c} {o}" for c, o in prod(CATS, OPT)]
+    ox = OPT + ["X"]
+    ex = EITH + ["X"]
+    for c, o, f in prod(CATS, OPT, T_DO):
+        for _ in range(6 if thorough else 2):
+            ops.append(f"m.do3.o {c} {o} {f} {rtable(r, OPT, 9)}")
+    for c, e, f in prod(CATS, EITH, T_DE):
+        for _ in range(4 if thorough else 1):
+            ops.append(f"m.do3.e {c} {e} {f} {rtable(r, EITH, 9)}")
+    for c, o in prod(CATS, OPT):
+        for _ in range(20):
+            ops.append(f"m.chain2.o {c} {o} {rtable(r, ox, 3)} {rtable(r, ox, 3)}")
+            ops.append(f"m.do3.o {c} {o} {rtable(r, ox, 3)} {rtable(r, ox, 9)}")
+    for c, e in prod(CATS, EITH):
+        for _ in range(20):
+            ops.append(f"m.chain2.e {c} {e} {rtable(r, ex, 3)} {rtable(r, ex, 3)}")
+            ops.append(f"m.do3.e {c} {e} {rtable(r, ex, 3)} {rtable(r, ex, 9)}")
+    ops += [f"m.ret.o {v}" for v in D] + [f"m.ret.e {v}" for v in D]
+    yield Batch("api-monad", ops,
+                note="monad::chain (optional: all 64x64 pairs of functions; either: sampled, all 6x216x216x3 in the thorough tier), "
+                     "chain without lambdas, monad::do_ with a binary second lambda (all first functions, sampled 9-entry tables), "
+                     "tables with throwing entries, return_")
 
 
 MANIFEST = {
@@ -214,9 +545,13 @@ MANIFEST = {
                    "its has_value/has_success/holds_type test and get_unsafe, continuations being arbitrary computations in a state+fault "
                    "monad: functor/monad/applicative laws, branch selection with exactly-once invocation (as equations between effectful "
                    "computations), documented results of filter/alternative/combine/cat/sequence/first_success/loop/try_call, and "
-                   "unreachability of get_unsafe on the wrong alternative, for all types, values, continuations and container lengths. "
+                   "unreachability of get_unsafe on the wrong alternative, for all types, values, continuations and container lengths; "
+                   "also the rest of the public API (to_container, copy_value, deref, maybe_void_multi, assign, from/to_pointer, "
+                   "to_exception, operator<<, either ==, construct, error_from_optional, sequence_error, to_optional_ref, "
+                   "dynamic_cast_, the valueless state, monad::chain / do_ / return_). "
                    "The model is tied to the code by a differential correspondence over D={0,1,2} that is exhaustive over all values, value "
-                   "categories, unary function tables, containers up to length 4 and (thorough) all 3^9 binary tables."),
+                   "categories (also mixed per argument), unary function tables, containers up to length 4, all 3^9 binary tables, "
+                   "aliased operands, throwing continuations, reference-returning continuations and every public member."),
     "level_note": ("Trusted: Lean kernel + propext/Classical.choice/Quot.sound; the hand-written model's fidelity outside the exercised "
                    "inputs (parametricity is the informal bridge from D to all types); harness and line protocol; std::variant/std::visit. "
                    "No sorry/axiom/native_decide."),
